@@ -82,8 +82,10 @@ def _restored_kill_case(prog):
                 while m < 500 and r2.tick():
                     m += 1
                 if in_stepper:
-                    records.append(dict(lines=head + r.ops[:nops] + [f"checkpoint {k} {prog.get('nfut', 0)}"] + r2.ops,
-                                        skip=len(head) + nops, obs=list(r2.obs),
+                    # once the real loop has nothing left to run, nothing may be left scheduled in the model either
+                    tail_ops, tail_obs = (['quiescent'], ['ready=']) if m < 500 else ([], [])
+                    records.append(dict(lines=head + r.ops[:nops] + [f"checkpoint {k} {prog.get('nfut', 0)}"] + r2.ops + tail_ops,
+                                        skip=len(head) + nops, obs=list(r2.obs) + tail_obs,
                                         meta=dict(checkpoint_state=label, checkpoint_entry=k, how=how, callbacks_before=delay)))
                 if tested:
                     n += 1
